@@ -279,6 +279,7 @@ class Inliner:
     self.skip = set(skip)
     self.nested = nested
     self._owner = None
+    self._maps = None
     self.tree = tree
     self.modname = modname
     ref = reference_functions().get(modname)
@@ -301,13 +302,21 @@ class Inliner:
     free variables mean the same thing there."""
     if not self.nested or self._owner is None:
       return None
-    from .canon import _functions
-    quals = {id(fn): q for q, fn in _functions(self.tree, self.modname)}
-    encl = {}
-    for q, fn in _functions(self.tree, self.modname):
-      for n in _own_walk(fn):
-        if isinstance(n, ast.FunctionDef):
-          encl[id(n)] = fn
+    if self._maps is None or self._maps[0] != self.count:
+      from .canon import _functions
+      fl = _functions(self.tree, self.modname)
+      quals = {id(fn): q for q, fn in fl}
+      encl = {}
+      names = set()
+      for q, fn in fl:
+        for n in _own_walk(fn):
+          if isinstance(n, ast.FunctionDef):
+            encl[id(n)] = fn
+            names.add(n.name)
+      self._maps = (self.count, quals, encl, names)
+    _c, quals, encl, names = self._maps
+    if name not in names:
+      return None
     chain, cur = [], self._owner
     while cur is not None:
       chain.append(cur)
@@ -807,12 +816,69 @@ def _rewrite_setdefault(body_list):
   return changed
 
 
+_unpack_fn = None     # the function whose statement lists idioms() is rewriting (for whole-function use counts)
+
+
 def _rewrite_tuple_assign(body_list):
   """`a, b = (x, y)` -> `a = x; b = y` when that is order-safe; drops `a = a`."""
   changed = 0
   i = 0
   while i < len(body_list):
     st = body_list[i]
+    # attribute targets fed from plain names / constants: `self.a, self.b = (x, y)` -> `self.a = x; self.b = y`
+    if isinstance(st, ast.Assign) and len(st.targets) == 1 and isinstance(st.targets[0], ast.Tuple) and isinstance(st.value, ast.Tuple) \
+        and len(st.targets[0].elts) == len(st.value.elts) and all(isinstance(v, (ast.Name, ast.Constant)) for v in st.value.elts) \
+        and all(isinstance(e, (ast.Name, ast.Attribute)) and (isinstance(e, ast.Name) or isinstance(e.value, ast.Name)) for e in st.targets[0].elts) \
+        and any(isinstance(e, ast.Attribute) for e in st.targets[0].elts):
+      tg, vs = st.targets[0].elts, st.value.elts
+      written = [e.id if isinstance(e, ast.Name) else None for e in tg]
+      if not any(isinstance(v, ast.Name) and v.id in written[:k] for k, v in enumerate(vs)):
+        new = [ast.copy_location(ast.Assign(targets=[t], value=v), st) for t, v in zip(tg, vs)]
+        body_list[i:i + 1] = new
+        changed += 1
+        i += len(new)
+        continue
+    # names that only carry the parts of an unpacking to their real destinations:
+    #   *a, b = E; T1 = a; T2 = b   ->   *T1, T2 = E
+    if isinstance(st, ast.Assign) and len(st.targets) == 1 and isinstance(st.targets[0], ast.Tuple) and not isinstance(st.value, ast.Tuple):
+      elts = st.targets[0].elts
+      names = [(e.value.id if isinstance(e, ast.Starred) and isinstance(e.value, ast.Name) else e.id if isinstance(e, ast.Name) else None) for e in elts]
+      if all(names) and len(set(names)) == len(names):
+        k = i + 1
+        copies = {}
+        while k < len(body_list) and isinstance(body_list[k], ast.Assign) and len(body_list[k].targets) == 1 and isinstance(body_list[k].value, ast.Name) \
+            and body_list[k].value.id in names and body_list[k].value.id not in copies \
+            and isinstance(body_list[k].targets[0], (ast.Name, ast.Attribute)) \
+            and not (isinstance(body_list[k].targets[0], ast.Attribute) and not isinstance(body_list[k].targets[0].value, ast.Name)):
+          copies[body_list[k].value.id] = body_list[k].targets[0]
+          k += 1
+        order_ok = [n for n in names if n in copies] == list(copies)
+        tnames = {ast.unparse(t) for t in copies.values()}
+        if copies and order_ok and len(tnames) == len(copies) and _unpack_fn is not None:
+          uses = {}
+          for x in _own_walk(_unpack_fn):
+            if isinstance(x, ast.Name) and x.id in copies:
+              uses[x.id] = uses.get(x.id, 0) + 1
+          nested = set()
+          for sc in _nested_scopes(_unpack_fn):
+            nested |= _all_names(sc)
+          if all(uses.get(n, 0) == 2 and n not in nested for n in copies) and not any(
+              isinstance(t, ast.Name) and t.id in names for t in copies.values()):
+            for e in elts:
+              holder = e if not isinstance(e, ast.Starred) else None
+              nm = e.value.id if isinstance(e, ast.Starred) else e.id
+              if nm in copies:
+                tgt = copy.deepcopy(copies[nm])
+                tgt.ctx = ast.Store()
+                if isinstance(e, ast.Starred):
+                  e.value = tgt
+                else:
+                  elts[elts.index(e)] = tgt
+            del body_list[i + 1:k]
+            ast.fix_missing_locations(st)
+            changed += 1
+            i += 1
+            continue
     if isinstance(st, ast.Assign) and len(st.targets) == 1 and isinstance(st.targets[0], ast.Tuple) and isinstance(st.value, ast.Tuple) \
         and len(st.targets[0].elts) == len(st.value.elts) and all(isinstance(e, ast.Name) for e in st.targets[0].elts) \
         and not any(isinstance(e, ast.Starred) for e in st.value.elts):
@@ -1354,6 +1420,58 @@ def _rewrite_pull_loop(fn, body_list):
   return changed
 
 
+def _rewrite_extend_comp(fn, body_list):
+  """L.extend(E for x in IT if C)  /  L.extend([E for x in IT if C])   ->   for x in IT: if C: L.append(E)
+  (extend takes the elements one at a time, so what L holds at each evaluation of C is the same)."""
+  if fn is None:
+    return 0
+  changed = 0
+  for i, st in enumerate(body_list):
+    if not (isinstance(st, ast.Expr) and isinstance(st.value, ast.Call) and isinstance(st.value.func, ast.Attribute) and st.value.func.attr == 'extend'
+            and isinstance(st.value.func.value, ast.Name) and len(st.value.args) == 1 and not st.value.keywords
+            and isinstance(st.value.args[0], (ast.GeneratorExp, ast.ListComp)) and len(st.value.args[0].generators) == 1):
+      continue
+    comp = st.value.args[0]
+    gen = comp.generators[0]
+    if gen.is_async:
+      continue
+    L = st.value.func.value.id
+    tnames = {x.id for x in ast.walk(gen.target) if isinstance(x, ast.Name)}
+    if L in tnames:
+      continue
+    if isinstance(comp, ast.ListComp) and any(isinstance(x, ast.Name) and x.id == L for x in ast.walk(comp)):
+      continue      # a list comprehension is complete before extend starts: `x not in L` sees the old L throughout
+    inside = {id(x) for x in ast.walk(comp)}
+    outside = {x.id for x in ast.walk(fn) if isinstance(x, ast.Name) and id(x) not in inside} | {a.arg for a in ast.walk(fn.args) if isinstance(a, ast.arg)}
+    ren = {nm: nm + '__g' for nm in tnames if nm in outside}
+    if ren:
+      class R(ast.NodeTransformer):
+        def visit_Name(self, n):
+          if n.id in ren:
+            n.id = ren[n.id]
+          return n
+      comp = R().visit(comp)
+      gen = comp.generators[0]
+    app = ast.Expr(value=ast.Call(func=ast.Attribute(value=ast.Name(id=L, ctx=ast.Load()), attr='append', ctx=ast.Load()), args=[comp.elt], keywords=[]))
+    inner = [app]
+    if gen.ifs:
+      test = gen.ifs[0] if len(gen.ifs) == 1 else ast.BoolOp(op=ast.And(), values=list(gen.ifs))
+      inner = [ast.If(test=test, body=[app], orelse=[])]
+    tgt = copy.deepcopy(gen.target)
+    for x in ast.walk(tgt):
+      if isinstance(x, (ast.Name, ast.Tuple, ast.List, ast.Starred)):
+        x.ctx = ast.Store()
+    loop = ast.For(target=tgt, iter=gen.iter, body=inner, orelse=[])
+    ast.copy_location(loop, st)
+    for x in ast.walk(loop):
+      if not hasattr(x, 'lineno'):
+        ast.copy_location(x, st)
+    ast.fix_missing_locations(loop)
+    body_list[i] = loop
+    changed += 1
+  return changed
+
+
 def loop_forms(tree):
   n = 0
   # module-level functions that end in `raise` never return
@@ -1366,6 +1484,7 @@ def loop_forms(tree):
       c += _thread_flags(fn, body)
       c += _thread_value(fn, body)
       c += _rewrite_iter_tools(fn, body, noret)
+      c += _rewrite_extend_comp(fn, body)
       c += _rewrite_for_genexp(fn, body, noret)
       c += _rewrite_pull_loop(fn, body)
       c += _unroll_literal_loop(fn, body)
@@ -1391,7 +1510,7 @@ REPO_PURE_METHODS = {'bound_name', 'partial_path'}
 _PURE_METHODS = REPO_PURE_METHODS | {'partial', 'attrgetter', 'itemgetter', 'methodcaller', 'chain', 'from_iterable', 'islice', 'filterfalse',
                                       'takewhile', 'dropwhile', 'count', 'cycle', 'repeat', 'get', 'keys', 'values', 'items', 'split', 'rsplit', 'partition', 'rpartition', 'startswith', 'endswith', 'join',
                  'strip', 'lstrip', 'rstrip', 'format', 'lower', 'upper', 'count', 'index', 'find', 'rfind', 'copy', 'match',
-                 'search', 'fullmatch', 'replace', 'isidentifier'}
+                 'search', 'fullmatch', 'replace', 'isidentifier', 'union', 'intersection', 'difference', 'symmetric_difference', 'issubset', 'issuperset', 'isdisjoint'}
 _MUTATORS = {'update', 'setdefault', 'clear', 'pop', 'popitem', 'append', 'add', 'extend', 'insert', 'remove', 'discard', 'sort', 'reverse'}
 
 
@@ -1934,6 +2053,24 @@ class _ExprForms(ast.NodeTransformer):
       elif isinstance(c, ast.Call) and ast.unparse(c.func) in ('itertools.chain', 'chain') and len(c.args) >= 2 and not c.keywords \
           and not any(isinstance(x, ast.Starred) for x in c.args):
         parts = list(c.args)
+      else:
+        # set(A).union(B, C) / set(A) | set(B) / {*A, *B}: membership in a union of collections (of hashable names)
+        def union_parts(e):
+          if isinstance(e, ast.Call) and isinstance(e.func, ast.Name) and e.func.id in ('set', 'frozenset') and len(e.args) == 1 and not e.keywords:
+            return [e.args[0]]
+          if isinstance(e, ast.Call) and isinstance(e.func, ast.Attribute) and e.func.attr == 'union' and not e.keywords \
+              and not any(isinstance(x, ast.Starred) for x in e.args):
+            base = union_parts(e.func.value)
+            return None if base is None else base + list(e.args)
+          if isinstance(e, ast.BinOp) and isinstance(e.op, ast.BitOr):
+            l_, r_ = union_parts(e.left), union_parts(e.right)
+            return None if l_ is None or r_ is None else l_ + r_
+          if isinstance(e, ast.Set) and e.elts and all(isinstance(x, ast.Starred) for x in e.elts):
+            return [x.value for x in e.elts]
+          return None
+        up = union_parts(c)
+        if up is not None and len(up) >= 2:
+          parts = up
       if parts and _pure(n.left):
         op = type(n.ops[0])
         vals = [ast.Compare(left=copy.deepcopy(n.left), ops=[op()], comparators=[p_]) for p_ in parts]
@@ -2236,6 +2373,25 @@ def _rewrite_vars_update(body_list):
   return changed
 
 
+def _rewrite_annassign(body_list):
+  """Inside a function `x: T = v` is `x = v`, and a bare `x: T` does nothing (annotations of locals are not evaluated)."""
+  if _unpack_fn is None:
+    return 0
+  changed = 0
+  for i, st in enumerate(body_list):
+    if isinstance(st, ast.AnnAssign) and isinstance(st.target, (ast.Name, ast.Attribute, ast.Subscript)):
+      if st.value is None:
+        if isinstance(st.target, ast.Name):
+          body_list[i] = ast.copy_location(ast.Pass(), st)
+          changed += 1
+        continue
+      new = ast.Assign(targets=[st.target], value=st.value)
+      body_list[i] = ast.copy_location(new, st)
+      ast.fix_missing_locations(new)
+      changed += 1
+  return changed
+
+
 def _drop_dead_code(body_list):
   """Statements after an unconditional raise / return / break / continue never run; `L += []` does nothing."""
   for i, st in enumerate(body_list):
@@ -2301,13 +2457,17 @@ def idioms(tree):
   ef = _ExprForms()
   ef.visit(tree)
   n = ef.n
+  global _unpack_fn
   for _ in range(3):
     c = 0
+    fn_of = {id(b): f for f, b in _scoped_bodies(tree)}
     for owner, fld, body in list(_bodies(tree)):
+      _unpack_fn = fn_of.get(id(body))
       c += _rewrite_exitstack(body)
       c += _rewrite_acquire(body)
       c += _rewrite_dict_merge(body)
       c += _rewrite_setdefault(body)
+      c += _rewrite_annassign(body)
       c += _rewrite_tuple_assign(body)
       c += _rewrite_or_default(body)
       c += _rewrite_flag_chain(body)
